@@ -15,6 +15,7 @@ Environment variables:
 from __future__ import annotations
 
 import atexit
+import contextlib
 import logging
 import os
 import shutil
@@ -106,6 +107,29 @@ def silence_and_import():
 
 def scratch() -> Path:
     return _state["scratch"]
+
+
+@contextlib.contextmanager
+def debug_logging():
+    """The library's own logger at DEBUG level (its output goes to the null device): what a user switches on
+    'in case of problems' must not change any answer."""
+    from spil.util import log
+    lg = log.logger
+    old = lg.level
+    sink = open(os.devnull, "w")
+    saved = []
+    for h in list(lg.handlers):
+        if hasattr(h, "setStream"):
+            saved.append((h, h.setStream(sink)))
+    lg.setLevel(logging.DEBUG)
+    try:
+        yield
+    finally:
+        lg.setLevel(old)
+        for h, st in saved:
+            if st is not None:
+                h.setStream(st)
+        sink.close()
 
 
 def conf_dir() -> Path:
